@@ -74,7 +74,8 @@ def run_C03(ctx):
     for r in core.sample(ctx.rng, segs, 3000 if quick else 20000):
         scen += [dict(v, script=r["script"], eofwith=r["eofwith"]) for v in unary_variants(r["sc"])]
     # every complete body of the design check under adversarial + random segmentations
-    comp = [r for r in allsc if complete(r["sc"]) and r["sc"]["limit"] == 0]
+    # (read limits are C09's subject, except for plain gRPC, which has no terminator frame for the limit to hit)
+    comp = [r for r in allsc if complete(r["sc"]) and (r["sc"]["limit"] == 0 or r["sc"]["proto"] == "grpc")]
     for r in comp:
         n = wirelen(r["sc"]) + 8
         rnd = [[ctx.rng.randint(1, 4) for _ in range(n)] for _ in range(2 if quick else 8)]
@@ -124,4 +125,12 @@ def run_C09(ctx):
             scen.append(s)
             scen += unary_variants(s)
     _run(ctx, scen, "c09")
-    return core.finish(ctx, rule=RULE, exhaustive=True)
+    # memory attacks, one at a time so that the allocation counter belongs to the call
+    atk = [flat(r, [], False, bomb=r["sc"].get("bomb", False), maxlimit=r["sc"].get("maxlimit", False))
+           for r in core.generate(ctx, "Gen_Frames", "Gen_Frames_D.cfg", tag="genD")["scenarios"]]
+    atk += [u for s in atk for u in unary_variants(s)]
+    tf = core.run_runner(ctx, "frames", atk, tag="c09mem", args=["-workers", "1"])
+    acc, rej = core.validate(ctx, "TraceFrames", tf, tag="c09mem", sigfn=sig(ctx.prop), shards=1)
+    core.judge(ctx, rej)
+    return core.finish(ctx, rule=RULE + "; memory clause: bomb / lying-prefix scenarios run one at a time, "
+                       "runtime.MemStats.TotalAlloc delta must stay below 8N + 8 MiB", exhaustive=True)
